@@ -178,6 +178,12 @@ func head(b []byte) []byte {
 
 func run(ci any, r *mon.Rec) {
 	c := ci.(*Case)
+	defer func() {
+		// the constructors are given sub-slices of larger buffers (libx.NewRequest): the caller's memory must come back untouched
+		if m := libx.TakeArgMutation(); m != "" {
+			r.Violate(c, "constructor-mutates-argument", mon.Attrs{}, m)
+		}
+	}()
 	fr := specref.Framing(c.Framing)
 	rng := rand.New(rand.NewSource(c.Seed))
 	switch c.Kind {
